@@ -33,16 +33,16 @@ fn model_candidates(m: &GenModel) -> Vec<GenModel> {
         c.rows.remove(i);
         out.push(c);
     }
+    // drop a decoration
+    for k in 0..m.decor.len() {
+        let mut c = m.clone();
+        c.decor.remove(k);
+        out.push(c);
+    }
     // drop a variable
     if m.n() > 1 {
         for j in 0..m.n() {
-            let mut c = m.clone();
-            c.vars.remove(j);
-            c.obj.remove(j);
-            for r in &mut c.rows {
-                r.coefs.remove(j);
-            }
-            out.push(c);
+            out.push(m.without_var(j));
         }
     }
     // simplify domains
